@@ -207,6 +207,19 @@ def directed_scripts():
         {"op": "waitgate", "gate": "bqput:1"}, {"op": "call", "c": 2, "g": 2, "msgs": [M(40)]},
         {"op": "sleep", "ms": 30}, {"op": "release", "gate": "bqput:1"}]})
     out[-1]["cfg"]["async"] = True
+    # D11: a BatchTimeout far beyond the scenario (size-only batching): batches closed by the overflow path, by
+    # becoming full and by Close; Close and the calls must not wait for any batch timer (C09), and a batch opened
+    # after an overflow is still closed by its own timer (C08, short timeout variant)
+    for k, bt in enumerate([60000, 25]):
+        for j, (asyn, msgs) in enumerate([(False, [M(80), M(80)]), (True, [M(80), M(80), M(30)]), (False, [M(60), M(60), M(60), M(60)])]):
+            steps = [{"op": "call", "c": 1, "g": 1, "msgs": msgs}, {"op": "sleep", "ms": 60}]
+            if bt > 1000:
+                steps += [{"op": "close"}, {"op": "waitclose"}]
+            else:
+                steps += [{"op": "waitcall", "c": 1}, {"op": "sleep", "ms": 100}]
+            out.append({"id": "D11-overflow-%d-%d" % (k, j), "cfg": dict(base, batchSize=10, batchBytes=120, nparts={"t": 1}, batchTimeoutMs=bt),
+                        "outcomes": {}, "steps": steps})
+            out[-1]["cfg"]["async"] = asyn
     return out
 
 
